@@ -252,7 +252,14 @@ func genRule(r *core.Rand, idx int, m c16Method) RuleSpec {
 // grammar, and says why.
 func mutate(r *core.Rand, rule RuleSpec, m c16Method) RuleSpec {
 	rule.Path, rule.Want = "", nil
-	switch r.Intn(14) {
+	switch r.Intn(15) {
+	case 14:
+		// something after the verb (the grammar ends a template with it)
+		if !strings.Contains(rule.Template, ":") {
+			rule.Template += ":" + r.PickS("poke", "v", "batchGet")
+		}
+		rule.Template += r.PickS("/extra", ":again", "}", "{name}", "/*", "/**")
+		rule.Invalid = "junk-after-verb"
 	case 13:
 		// a selector with an empty component (a field path is IDENT { "." IDENT })
 		sel := "payload"
@@ -367,11 +374,25 @@ func genC16(r *core.Rand, run int) *MuxScenario {
 		switch r.Intn(14) {
 		case 0, 1, 2:
 			rule = mutate(r, rule, m)
-		case 3: // a valid additional binding
+		case 3: // valid additional bindings - or several of which one, not the last, is invalid
 			if rule.Invalid == "" {
-				add := genRule(r, 100+i, m)
-				add.Selector = ""
-				rule.Additional = append(rule.Additional, add)
+				n := 1 + r.Intn(3)
+				bad := -1
+				if n >= 2 && r.Chance(1, 3) {
+					bad = r.Intn(n - 1)
+				}
+				for k := 0; k < n; k++ {
+					add := genRule(r, 100+10*i+k, m)
+					if k == bad {
+						add = mutate(r, add, m)
+						if len(add.Additional) > 0 || add.Invalid == "" {
+							add = RuleSpec{Verb: "get", Template: "/r" + strconv.Itoa(100+10*i+k) + "/{no_such_field}", Invalid: "unknown-field"}
+						}
+						rule.Invalid, rule.Path, rule.Want = "additional-binding:"+add.Invalid, "", nil
+					}
+					add.Selector = ""
+					rule.Additional = append(rule.Additional, add)
+				}
 			}
 		case 4: // a valid response_body selector
 			if md := methodDesc(m.Service, m.Name); md.Output().Fields().ByName("payload") != nil {
@@ -458,6 +479,23 @@ func genC16(r *core.Rand, run int) *MuxScenario {
 						}
 						rule = RuleSpec{Selector: rule.Selector, Verb: verb, Template: t, Path: prev.Path, Want: map[string]string{}}
 						if verb == "put" || verb == "post" || verb == "patch" {
+							rule.Body = "*"
+						}
+					}
+				}
+			}
+		case 11: // an earlier rule ends in ":verb": the same path with "/verb" instead, same HTTP verb, another method - two different routes
+			if len(sc.Rules) > 0 {
+				pi := r.Intn(len(sc.Rules))
+				prev := sc.Rules[pi]
+				if k := strings.LastIndex(prev.Template, ":"); k > 0 && prev.Invalid == "" && !prev.Long && !prev.Conflict && prev.Path != "" && len(prev.Additional) == 0 && !neighbour[pi] && !strings.Contains(prev.Template[k:], "}") && !strings.Contains(prev.Template, "**") { // (nothing may follow a **)
+					neighbour[pi], neighbour[len(sc.Rules)] = true, true
+					t := normTemplate(prev.Template[:k] + "/" + prev.Template[k+1:])
+					pk := strings.LastIndex(prev.Path, ":")
+					rule = RuleSpec{Selector: rule.Selector, Verb: prev.Verb, Template: t, Body: prev.Body, Path: prev.Path[:pk] + "/" + prev.Path[pk+1:], Want: map[string]string{}}
+					if rule.Body != "*" {
+						rule.Body = ""
+						if prev.Verb == "put" || prev.Verb == "post" || prev.Verb == "patch" {
 							rule.Body = "*"
 						}
 					}
